@@ -52,6 +52,7 @@ type c04case struct {
 	Queries [][3]int `json:"queries"`
 	Strat   string   `json:"strat"`
 	Qstrat  string   `json:"qstrat"`
+	Hist    [][2]int `json:"hist"` // interleaved history: [number of records, action after them]; action bit 1 = run the queries, bit 2 = write the index
 	Foreign []int    `json:"foreign"`
 	HasFor  bool     `json:"hasforeign"`
 }
@@ -518,6 +519,7 @@ func c04(raw json.RawMessage) interface{} {
 		}
 
 		recinfo := make([]interface{}, 0, len(c.Recs))
+		mid := []interface{}{}
 		adderr := []int{}
 		stopped := false
 		for i, r := range c.Recs {
@@ -561,8 +563,29 @@ func c04(raw json.RawMessage) interface{} {
 			adderr = append(adderr, e)
 			if e != 0 {
 				stopped = true
+				continue
+			}
+			// interleaved history: after the last record of a segment (not the last segment)
+			// query and/or write the index built so far, then carry on adding
+			if act, ok := c04boundary(c.Hist, i, len(c.Recs)); ok {
+				m := map[string]interface{}{"at": i + 1, "act": act}
+				if act&1 != 0 {
+					q, p := c04queries(ix, c.Queries)
+					m["q"] = q
+					if p != "" {
+						m["panic"] = p
+					}
+				}
+				if act&2 != 0 {
+					if p := c04guard(func() { _, _ = ix.write() }); p != "" {
+						m["panic"] = p
+					}
+				}
+				m["dump"] = ix.dump()
+				mid = append(mid, m)
 			}
 		}
+		obs["mid"] = mid
 		obs["recs"] = recinfo
 		obs["adderr"] = adderr
 		if _, bad := obs["addpanic"]; bad {
@@ -654,6 +677,22 @@ func c04(raw json.RawMessage) interface{} {
 		}
 	}
 	return obs
+}
+
+// c04boundary reports the action after record i when i ends a segment of the
+// history that is not the last one.
+func c04boundary(hist [][2]int, i, n int) (int, bool) {
+	end := 0
+	for k, h := range hist {
+		end += h[0]
+		if k == len(hist)-1 || end >= n {
+			return 0, false
+		}
+		if end == i+1 {
+			return h[1], h[0] > 0
+		}
+	}
+	return 0, false
 }
 
 var c04iterData []byte
